@@ -137,9 +137,8 @@ Proof.
   destruct (rnode e) as [| |s|a b|x xr|a|l|l]; try (rmake).
   - inversion H; subst; reflexivity.
   - inversion H; subst; reflexivity.
-  - destruct (lr_rmie xr rg) as [[|]|]; cbn [bind] in *; try discriminate.
-    + destruct (lr_mul xr rg); cbn [bind] in *; [rmake | discriminate].
-    + rmake.
+  - destruct (lr_rmie xr rg) as [[|]|]; try rmake.
+    destruct (lr_mul xr rg); rmake.
 Qed.
 
 Theorem replay_star m e m1 t m' :
@@ -178,12 +177,12 @@ Proof.
   destruct (is_empty_node e2); [inversion H; subst; reflexivity|].
   destruct (is_eps_node e1); [inversion H; subst; reflexivity|].
   destruct (is_eps_node e2); [inversion H; subst; reflexivity|].
-  destruct (rule5 e1 e2) as [rng|].
-  { destruct (lr_add_point rng 1) as [r|]; cbn [bind] in *; [|discriminate]. rmake. }
-  destruct (rule5 e2 e1) as [rng|].
-  { destruct (lr_add_point rng 1) as [r|]; cbn [bind] in *; [|discriminate]. rmake. }
-  destruct (rule7 e1 e2) as [[[x xr] yr]|].
-  { destruct (lr_add xr yr) as [r|]; cbn [bind] in *; [|discriminate]. rmake. }
+  destruct (rule5g e1 e2) as [r|].
+  { rmake. }
+  destruct (rule5g e2 e1) as [r|].
+  { rmake. }
+  destruct (rule7g e1 e2) as [[x r]|].
+  { rmake. }
   destruct (re_eqb e1 e2).
   { rmake. }
   destruct (rnode e1) as [| |s|x y|x xr|x|l|l] eqn:K.
